@@ -5,6 +5,7 @@ import JunoModel.C11.ProofsGate
 import JunoModel.C11.ProofsConn
 import JunoModel.C11.ProofsRegister
 import JunoModel.C11.ProofsBatch
+import JunoModel.C11.ProofsEvents
 /-!
 C11 — property theorems (statements only; proofs in `Proofs*.lean`, vocabulary in `ModelSpec.lean`,
 model of the code in `Model*.lean`).
@@ -523,6 +524,79 @@ theorem register_methods_registers_prefix (tbl : Table) (ds : List MethodDecl) :
         | some e => ∃ bad, (ds.drop ok.length).head? = some bad ∧ checkMethod bad = some e) :=
   registerMethods_prefix tbl ds
 
+/-! ## 12. Around the response: listener calls and headers (`ModelEvents.lean`, round 5)
+
+`handleInputX` transcribes `HandleReader` / `handleBatchRequest` / `handleRequest` at HEAD with everything they
+do besides answering: the calls on the `EventListener` (the node's request metrics), the `http.Header` of
+3-value handlers, `marshalResponse`'s fallback. -/
+
+/-- The extended transcription IS the server the other theorems speak about: for every input, table, handler
+behaviour (also panicking / unmarshallable) it writes the body and makes the handler calls of
+`handleInputF junoCfg` (batches enabled or disabled). -/
+theorem extended_model_answers_like_server (bd : Bool) (env : Env) (hdr : String → List Json → Header) (tbl : Table)
+    (inp : Input) :
+    (handleInputX bd env hdr tbl inp).body = (handleInputF { junoCfg with batchDisabled := bd } env tbl inp).body ∧
+    (handleInputX bd env hdr tbl inp).log = (handleInputF { junoCfg with batchDisabled := bd } env tbl inp).log :=
+  handleInputX_body_log bd env hdr tbl inp
+
+/-- "invokes its handler exactly once", as the listener sees it: the `OnRequestHandled` calls of an input are —
+one for one, same method, same order — the handler invocations of the server (`handleInputF`), whatever the
+handlers do (return, fail, panic). -/
+theorem listener_handled_once_per_invocation (bd : Bool) (env : Env) (hdr : String → List Json → Header) (tbl : Table)
+    (inp : Input) :
+    (handleInputX bd env hdr tbl inp).events.filterMap Event.handled? =
+      (handleInputF { junoCfg with batchDisabled := bd } env tbl inp).log.map (·.1) := by
+  rw [handleInputX_handled, (handleInputX_body_log bd env hdr tbl inp).2]
+
+/-- The listener calls of ONE request value have one of four shapes — nothing (invalid request, unknown method),
+`OnNewRequest` alone (parameters do not bind), `OnNewRequest, OnRequestHandled` (the handler ran), or
+`OnNewRequest, OnRequestFailed, OnRequestHandled` — and `OnRequestFailed` is only called for a request that is
+answered with -32603 Internal error; a handler's header is only kept for a request that is answered and whose
+handler ran (never for a notification). -/
+theorem listener_calls_of_a_request (env : Env) (hdr : String → List Json → Header) (tbl : Table) (c : Int) (j : Json) :
+    EventsShape (handleEntryX env hdr tbl c j).events ∧
+    ((handleEntryX env hdr tbl c j).events.filterMap Event.failed? ≠ [] →
+      ∃ r e, (handleEntryX env hdr tbl c j).resp = some r ∧ r.error = some e ∧ e.code = -32603) ∧
+    ((handleEntryX env hdr tbl c j).header ≠ [] →
+      (handleEntryX env hdr tbl c j).resp.isSome = true ∧ (handleEntryX env hdr tbl c j).log ≠ []) :=
+  let h := handleEntryX_events env hdr tbl c j _ rfl
+  ⟨h.1, h.2.2.1, h.2.2.2⟩
+
+/-- `OnNewRequest(method)` is called exactly for sane requests whose method is registered (before the
+parameters are looked at). -/
+theorem listener_new_request_iff_method_known (env : Env) (hdr : String → List Json → Header) (tbl : Table)
+    (req : Request) :
+    (handleRequestX env hdr tbl req).events.filterMap Event.newRequest? = [req.method] ↔
+      isSane req = none ∧ (lookupMethod tbl req.method).isSome = true :=
+  (handleRequestX_events env hdr tbl req _ rfl).2.2.1
+
+/-- The header `handleBatchRequest` returns: per key, exactly the values of the headers of the batch's entries,
+in request order in the in-order model (unanswered entries contribute nothing) … -/
+theorem batch_header_is_union_of_entry_headers (env : Env) (hdr : String → List Json → Header)
+    (hwf : ∀ n a, (hdr n a).WF) (tbl : Table) (inp : Input) (x : Json) (xs : List Json)
+    (hb : inp.firstIsBracket = true) (hp : inp.parsed = some (.arr (x :: xs))) (k : String) :
+    (handleInputX false env hdr tbl inp).header.values k =
+      (x :: xs).flatMap (fun e => (handleEntryX env hdr tbl InvalidRequest e).header.values k) :=
+  batch_header_values env hdr hwf tbl inp x xs hb hp k
+
+/-- … and in whatever order the workers finish (`headers` is appended to under the mutex in completion
+order), the merged header has per key the same values as a multiset: none lost, none duplicated. -/
+theorem batch_header_independent_of_schedule (hs hs' : List Header) (hwf : ∀ h ∈ hs, h.WF) (hp : hs.Perm hs')
+    (k : String) : ((mergeHeaders hs).values k).Perm ((mergeHeaders hs').values k) :=
+  mergeHeaders_perm hs hs' hwf hp k
+
+/-- `HTTP.ServeHTTP`: the `Content-Type` of a POST answer is `application/json` unless the header returned by
+`HandleReader` (a 3-value handler's) itself has a `Content-Type` — `maps.Copy` overwrites; with a body the
+answer is framed by `Content-Encoding: gzip` (client accepts gzip) or else by `Content-Length`. -/
+theorem http_post_headers (g : Bool) (o : OutputX) (hwf : o.header.WF) :
+    (httpPostHeaders g o).values "Content-Type" =
+      (if o.header.has "Content-Type" then o.header.values "Content-Type" else ["application/json"]) ∧
+    (∀ b, o.body = some b → g = true → (httpPostHeaders g o).values "Content-Encoding" = ["gzip"]) ∧
+    (∀ b, o.body = some b → g = false → (httpPostHeaders g o).values "Content-Length" = ["#"]) := by
+  refine ⟨http_content_type g o hwf, fun b hb hg => ?_, fun b hb hg => (http_body_framing g o b hb).2 hg⟩
+  have := (http_body_framing g o b hb).1
+  simpa [hg] using this
+
 /-! ## Non-vacuity: the hypotheses are satisfiable, the model does what the examples of the
 specification say -/
 
@@ -585,5 +659,21 @@ example : feltMaxBits (2 ^ 64 - 1) 64 = true ∧ feltMaxBits (2 ^ 64) 64 = false
   refine ⟨(feltMaxBits_spec _ _).mpr (by decide), ?_⟩
   rw [Bool.eq_false_iff, Ne, feltMaxBits_spec]
   decide
+-- round 5: the listener and the headers. `h` returns a header, `p` panics, `m` returns an unmarshallable value
+def hdrOf : String → List Json → Header := fun n _ => if n = "ok" then [("X-Verif-Method", [n])] else []
+example : (handleInputX false faultyEnv hdrOf faultyTable
+    (batchInput [request "ok" [("id", .num "1")], request "p" [("id", .num "2")], request "m" [("id", .num "3")],
+                 request "ok" [], request "nope" [("id", .num "4")]])).events
+    = [.newRequest "ok", .handled "ok", .newRequest "p", .failed "p", .handled "p", .newRequest "m", .handled "m",
+       .newRequest "ok", .handled "ok"] := by rfl
+example : (handleInputX false faultyEnv hdrOf faultyTable
+    (batchInput [request "ok" [("id", .num "1")], request "ok" [], request "ok" [("id", .num "2")]])).header
+    = [("X-Verif-Method", ["ok", "ok"])] := by rfl
+example : ∀ n a, (hdrOf n a).WF := by
+  intro n a; unfold hdrOf; split <;> simp [Header.WF]
+example : (httpPostHeaders false { body := some .null, header := [("Content-Type", ["text/plain"])] }).values "Content-Type"
+    = ["text/plain"] := by decide
+example : ((handleEntryX faultyEnv hdrOf faultyTable (-32600) (request "p" [("id", .num "2")])).events.filterMap Event.failed?)
+    ≠ [] := by decide
 
 end Juno.C11.Props
